@@ -268,12 +268,23 @@ def compose_geojson(rng):
 def dump_geojson(rng, obj):
     style = int(rng.integers(4))
     if style == 0:
-        return json.dumps(obj)
-    if style == 1:
-        return json.dumps(obj, separators=(',', ':'))
-    if style == 2:
-        return json.dumps(obj, indent=2)
-    return json.dumps(obj, sort_keys=True)
+        text = json.dumps(obj)
+    elif style == 1:
+        text = json.dumps(obj, separators=(',', ':'))
+    elif style == 2:
+        text = json.dumps(obj, indent=2)
+    else:
+        text = json.dumps(obj, sort_keys=True)
+    # insignificant white space around the JSON value (RFC 8259 section 2): what "$(cat file)", a here-document or
+    # indented text hands to the command line
+    wrap = int(rng.integers(6))
+    if wrap == 0:
+        text = ' ' + text
+    elif wrap == 1:
+        text = '\n' + text + '\n'
+    elif wrap == 2:
+        text = text + '  \n'
+    return text
 
 
 # ---------------------------------------------------------------------------------------------------------
